@@ -113,6 +113,14 @@ async def do_step(inv, step, loop, peer=None):
         await asyncio.sleep(0)
         await asyncio.sleep(0)
         return {}
+    if op == "b2b":                # two steps back to back: the second starts in the same loop iteration in which the first ended (as the
+        first = "ok"               # family classes do inside read_device_info / read_runtime_data); the first one's failure is recorded
+        try:
+            await do_step(inv, step[1], loop, peer)
+        except Exception as e:      # noqa
+            first = type(e).__name__
+        res = await do_step(inv, step[2], loop, peer)
+        return dict(res, first=first)
     if op == "api":
         r = getattr(inv, step[1])(*step[2:])
         if asyncio.iscoroutine(r):
